@@ -131,7 +131,11 @@ def _gen_csv3d(rng):
             "give_domain": give_domain, "box": box}
 
 
-_NAMES = ["pressure", "flux", "t", "x_0", "Var1", "a", "b2", "time_step", "T", "y"]
+# names without white space; punctuation, digits-first, python keywords and names that
+# differ only in punctuation are all legal column headers of the white-space separated format
+_NAMES = ["pressure", "flux", "t", "x_0", "Var1", "a", "b2", "time_step", "T", "y",
+          "error_p-norm", "flux[0]", "flux[1]", "k_x/k_y", "u(t)", "rel.error", "file",
+          "return", "2nd", "p+", "a:b", "dt=", "x-0", "x0"]
 
 
 def _values(rng, L):
@@ -177,6 +181,10 @@ def floor(tier):
         {"kind": "txt", "names": ["a", "b"], "formats": ["%.17e", "%2.2e"],
          "arrays": [[1.0], [2.0]]},
         {"kind": "txt", "names": ["a"], "formats": ["%.17e"], "arrays": [[1.0]]},
+        {"kind": "txt", "names": ["error_p-norm", "flux[0]", "rel.error", "file"],
+         "formats": ["%.17e"] * 4, "arrays": [[1.0, 2.0], [3.0, 4.0], [5.0, 6.0], [7.0, 8.0]]},
+        {"kind": "txt", "names": ["u(t)", "k_x/k_y"], "formats": ["%2.2e", "%.17e"],
+         "arrays": [[0.5, 0.25, 1.0], [third, 2.0, -1.0]]},
         {"kind": "txt", "names": ["a", "b"], "formats": ["%.17e", "%2.2e"],
          "arrays": [[1.0, 2.0], [2.0, third]]},
         {"kind": "txt", "names": ["p", "q", "r", "s", "t"], "formats": ["%.17e"] * 5,
